@@ -83,6 +83,7 @@ func (c *appendCombineChecker) matchAppend(stmt ast.Stmt, slice ast.Expr) *ast.C
 	{
 		cond := ok &&
 			qualifiedName(call.Fun) == "append" &&
+			isBuiltinFunc(c.ctx, call.Fun) &&
 			call.Ellipsis == token.NoPos &&
 			astequal.Expr(assign.Lhs[0], call.Args[0])
 		if !cond {
